@@ -4,7 +4,7 @@
 (* methods (seeded random seconds/nanos pairs, time.Duration and time.Time *)
 (* values) must agree with TimeConv!Expect on every key it defines.        *)
 (***************************************************************************)
-EXTENDS TimeConv, Json, IOUtils
+EXTENDS TimeConvCases, Json, IOUtils
 
 Trace == ndJsonDeserialize(IOEnv.TRACE)
 
